@@ -330,6 +330,64 @@ def r09_3(ctx, counts) -> RuleResult:
     return res
 
 
+UNICODE_CASE_METHODS = ('casefold', 'lower', 'upper', 'swapcase', 'title', 'capitalize')
+
+
+def r09_7(ctx, counts) -> RuleResult:
+    """the HTML ASCII case-insensitive collation folds ASCII letters only"""
+    from ..engine.cfg import CFG
+    from ..engine.dataflow import branch_facts
+    model = ctx.model
+    res = RuleResult(
+        'R09.7', 'ASCII-CASE-FOLD-ONLY',
+        'F&O 5.3.5: the HTML ASCII case-insensitive collation compares "as if the ASCII letters '
+        'A-Z were a-z", by code point; every other character is itself and a string keeps its '
+        'length (substring-before / -after apply a position found in the key to the original '
+        'string). The functions that CollationManager installs as strcoll / strxfrm under the '
+        'fact `collation == HTML_ASCII_CASE_INSENSITIVE_COLLATION` therefore call none of the '
+        'Unicode-wide str methods casefold / lower / upper / swapcase / title / capitalize '
+        '(casefold makes "ß" equal to "ss", lower makes "É" equal to "é").')
+    cm = model.find_class('CollationManager')
+    init = cm.methods.get('__init__') if cm is not None else None
+    if init is None:
+        raise AnalysisError('CollationManager.__init__ vanished')
+    cfg = CFG(init.node)
+    facts = branch_facts(cfg)
+    n = 0
+    for nd in cfg.nodes:
+        if nd.ast is None or nd.kind != 'stmt' or not isinstance(nd.ast, ast.Assign):
+            continue
+        tg = [dotted(t) for t in nd.ast.targets]
+        if not any(t in ('self.strcoll', 'self.strxfrm') for t in tg):
+            continue
+        if not any(fa.startswith('+') and 'HTML_ASCII_CASE_INSENSITIVE_COLLATION' in fa
+                   for fa in facts[nd.id]):
+            continue
+        n += 1
+        name = dotted(nd.ast.value)
+        fn = init.module.toplevel_function(name) if name else None
+        if fn is None:
+            raise AnalysisError(f'CollationManager: `{stmt_text(nd.ast)[:50]}` does not install a '
+                                f'function of the module')
+        wide = [c for c in ast.walk(fn.node) if isinstance(c, ast.Call)
+                and isinstance(c.func, ast.Attribute) and c.func.attr in UNICODE_CASE_METHODS]
+        res.instances.append(f'{init.key}: HTML ASCII collation installs {name} as {tg[0]}; '
+                             f'Unicode-wide case methods in it: '
+                             f'{[c.func.attr for c in wide] or None}')
+        if not wide:
+            res.ok()
+        else:
+            res.fail(finding('R09.7', fn, wide[0], f'{name} uses {wide[0].func.attr}()',
+                             f'{name}, installed for the HTML ASCII case-insensitive collation, '
+                             f'calls str.{wide[0].func.attr}(): characters outside A-Z are folded '
+                             f'too and the key can change length (contains("Straße", "SS", ..) is '
+                             f'true, substring-before("Straße X", "x", ..) is "Straße X")'))
+    counts['html_ascii_collation_functions'] = n
+    if n < 2:
+        raise AnalysisError(f'HTML ASCII collation: {n} installed functions located (2 expected)')
+    return res
+
+
 def run(ctx) -> dict:
     model = ctx.model
     counts: dict[str, int] = {}
@@ -411,7 +469,7 @@ def run(ctx) -> dict:
     counts['uri_functions'] = n
     return {
         'results': [r1, r2, r09_3(ctx, counts), r09_4(ctx, counts), r09_5(ctx, counts),
-                    r09_6(ctx, counts)],
+                    r09_6(ctx, counts), r09_7(ctx, counts)],
         'counts': counts,
         'explanation':
             'Decided statically: fn:substring rounds its start/length half up (through the '
